@@ -45,20 +45,20 @@ ASSUMES = [
     "weights are positive; given sizes are >= 1; empty Pile / Columns / GridFlow / ListBox are included (documented special case)",
 ]
 REQUIRE = {
-    "trees_judged": 300,
-    "cases_judged": 6000,
-    "m1_judged": 30000,
-    "clause_box_cols_rows": 5000,
+    "trees_judged": 150,
+    "cases_judged": 3000,
+    "m1_judged": 20000,
+    "clause_box_cols_rows": 3000,
     "clause_flow_rows_eq_rows()": 5000,
     "clause_fixed_size_eq_pack()": 300,
-    "clause_row_width": 100000,
-    "clause_content_rows": 30000,
+    "clause_row_width": 50000,
+    "clause_content_rows": 20000,
     "clause_cursor_inside": 300,
     "skipped_invalid": 1,
     "mode:utf8": 100,
     "mode:wide": 100,
     "mode:narrow": 100,
-    **{f"cls:{c}": 20 for c in T.ALL_CLASSES},
+    **{f"cls:{c}": 8 for c in T.ALL_CLASSES},
 }
 
 S7 = (1, 2, 3, 5, 8, 13, 40)
@@ -347,6 +347,11 @@ def _candidates(recipe):
                     yield T.replace_at(recipe, p, dict(n, text=mk[:i] + mk[i + 1 :]))
             else:
                 yield T.replace_at(recipe, p, dict(n, text=mk[0][1]))
+            if len(mk) > 1 and all(isinstance(tx, str) for _a, tx in mk):
+                yield T.replace_at(recipe, p, dict(n, text="".join(tx for _a, tx in mk)))
+            for i, (a, tx) in enumerate(mk):
+                if isinstance(tx, str) and len(tx) > 1:
+                    yield T.replace_at(recipe, p, dict(n, text=mk[:i] + [[a, "a"]] + mk[i + 1 :]))
         if t == "BigText" and n["text"] not in ("1", ""):
             yield T.replace_at(recipe, p, dict(n, text="1"))
         if t in ("Pile", "Columns"):
@@ -415,28 +420,23 @@ def _axis_class(name, failing, allv):
 
 
 def size_class(env, recipe, f):
-    """sweep the witness over every size of its mode and both focus values -> abstract size class"""
+    """sweep the witness over every size of its sizing mode and both focus values.  Two size classes: 'tiny' = every
+    failing size has a dimension <= 3 (degenerate sizes only), 'ordinary' = it also fails at a size whose dimensions are
+    all > 3;  plus 'focus' when it fails only with focus=True."""
     rmode = RC.MODE_BY_LEN[len(f.root_size)]
     fail = []
     for size in SIZES[rmode]:
         for focus in FOCI:
             st, f2 = probe(env, recipe, size, focus)
-            if st == "bad" and f2.key == f.key and f2.path == f.path:
+            if st == "bad" and f2.key == f.key:
                 fail.append((size, focus))
     if not fail:
-        return "unstable"
-    parts = []
-    if rmode != "fixed":
-        parts.append(_axis_class("cols", [s[0] for s, _ in fail], [s[0] for s in SIZES[rmode]]))
-    if rmode == "box":
-        parts.append(_axis_class("rows", [s[1] for s, _ in fail], [s[1] for s in SIZES[rmode]]))
-    fs = {fo for _, fo in fail}
-    if fs == {True}:
-        parts.append("focus")
-    elif fs == {False}:
-        parts.append("nofocus")
-    parts = [p for p in parts if p]
-    return ",".join(parts) if parts else "any"
+        fail = [(tuple(f.root_size), f.root_focus)]
+    if rmode == "fixed":
+        cls = "fixed"
+    else:
+        cls = "tiny" if all(min(s) <= 3 for s, _ in fail) else "ordinary"
+    return cls
 
 
 TEXT_LEAVES = ("Text", "SelectableIcon", "Button", "CheckBox", "RadioButton", "Edit", "IntEdit", "IntegerEdit", "FloatEdit")
@@ -452,12 +452,11 @@ def _kinds_tag(c):
 
 
 STRUCTURAL = {
-    "Padding": lambda r: ["w:" + T._kindof(r["width"]), "minw" if r["min_width"] else None],
-    "Filler": lambda r: ["h:" + T._kindof(r["height"]), "minh" if r["min_height"] else None, "tb>0" if (r["top"] or r["bottom"]) else None],
-    "Overlay": lambda r: ["w:" + T._kindof(r["width"]), "h:" + T._kindof(r["height"]), "minw" if r["min_width"] else None, "minh" if r["min_height"] else None],
+    "Padding": lambda r: ["w:" + _wh(r["width"])],
+    "Filler": lambda r: ["h:" + _wh(r["height"])],
+    "Overlay": lambda r: ["w:pack" if r["width"] == "pack" else None],
     "Columns": lambda r: ["boxcols" if r["box_columns"] else None],
     "LineBox": lambda r: ["title" if r["title"] else None, ("off:" + "".join(r["off"])) if r.get("off") else None],
-    "ScrollBar": lambda r: ["w1" if r["width"] == 1 else "w>1"],
     "Scrollable": lambda r: ["pos>0" if r.get("scrollpos") else None],
     "BigText": lambda r: ["empty" if not r["text"] else None],
     "BarGraph": lambda r: [f"seg{r['nseg']}", "satt" if r["satt"] else None, "bw" if r.get("bar_width") else None, "nobars" if not r["data"] else None],
@@ -467,76 +466,72 @@ STRUCTURAL = {
 }
 
 
-def shape_of(node, mode, smode):
+def _wh(v):
+    return "relative" if isinstance(v, (list, tuple)) else ("given" if isinstance(v, int) else str(v))
+
+
+def shape_of(node, mode, smode, raising=False):
     """abstract shape of the blamed node (mechanism level, no values).
-    Text-bearing leaves: {merged character classes of all their texts, non-default align, non-default wrap}.
-    Other classes: Class{structural option kinds}[children], where children of Pile/Columns/Frame/Overlay are given by
-    their item kind, and a 'pack'/'weight' child that does not itself support the sizing mode the parent was rendered in is
-    flagged (pack:!F = a PACK child that is not a flow widget inside a flow render).  Siblings that are not flagged are
-    incidental and are left out when a flagged child exists."""
+    Text-bearing leaves -> {primary character class of their texts: zero (zero-width character present) > wide (double-width
+    present) > plain;  'markup' if the text is attribute markup;  for plain text also 'aligned' (align != left) and
+    'ellipsis' (wrap == ellipsis), because for plain text only those options change the layout path}.
+    Other classes -> Class{structural option kinds}[flagged children]; the option kinds are omitted for raise kinds (the
+    raise site in the kind field names the mechanism).  Flagged children of Pile / Columns: a 'pack' / 'weight' child that
+    does not itself support the sizing mode the parent was rendered in (pack:!F = a PACK child that is not a flow widget
+    in a flow render), and box_columns children (+box).  Unflagged siblings are incidental and not listed.  A single-child
+    decoration lists '!B' / '!F' / '!X' when its child does not support the mode, '(empty)' for an empty container child."""
     t = node["t"]
     if t in TEXT_LEAVES:
-        cl, byt = [], False
+        cl = set()
         for fld in TEXT_FIELDS:
             if fld in node:
-                tc = T.text_classes(node[fld], mode)
-                for piece in re.split(r"[+:]", tc):
-                    if piece == "b":
-                        byt = True
-                    elif piece in ("ascii", "sp", "latin1"):
-                        piece = "plain"
-                    if piece in ("markup", "b", "none", "empty"):
-                        continue
-                    if piece not in cl:
-                        cl.append(piece)
-        order = ["wide", "zero", "nl", "dec"]  # width-relevant classes; plain text is only named when nothing else is there
-        opts = [("b:" if byt else "") + ("+".join(x for x in order if x in cl) or ("plain" if "plain" in cl else "empty"))]
+                cl.update(re.split(r"[+:]", T.text_classes(node[fld], mode)))
+        prim = "zero" if "zero" in cl else ("wide" if "wide" in cl else ("plain" if cl & {"ascii", "sp", "latin1", "dec", "nl"} else "empty"))
+        opts = [prim]
         if isinstance(node.get("text"), list):
-            opts.append("markup")
-        if node.get("align", "left") != "left":
-            opts.append(node["align"])
-        if node.get("wrap", "space") != "space":
-            opts.append(node["wrap"])
+            opts = ["markup"] + (["empty-segment"] if any(len(T._txt(tx)) == 0 for _a, tx in node["text"]) else [])
+        if prim in ("plain", "empty"):
+            if node.get("align", "left") != "left":
+                opts.append("aligned")
+            if node.get("wrap", "space") == "ellipsis":
+                opts.append("ellipsis")
         return "{" + ",".join(opts) + "}"
-    opts = [o for o in STRUCTURAL.get(t, lambda r: [])(node) if o]
+    opts = [] if raising else [o for o in STRUCTURAL.get(t, lambda r: [])(node) if o]
     s = t + ("{" + ",".join(opts) + "}" if opts else "")
     cs = T.children(node)
     if not cs:
         return s + ("[]" if t in T.CONTAINER_CLASSES else "")
     letter = {"box": "B", "flow": "F", "fixed": "X"}[smode]
-    parts, flagged = [], []
+    flagged = []
     for i, c in enumerate(cs):
         tag = ""
         if t in ("Pile", "Columns"):
             tag = node["items"][i][0]
-            isbox = t == "Columns" and i in (node.get("box_columns") or [])
-            if isbox:
-                tag += "+box"
-            if tag in ("pack", "weight") and letter not in _kinds_tag(c):
-                flagged.append(f"{tag}:!{letter}")
-                continue
-            if isbox:
-                flagged.append(tag)
-                continue
-        elif t == "Frame":
-            tag = node["parts"][i]
-        elif t == "Overlay":
-            tag = ("top", "bottom")[i]
+            if t == "Columns" and i in (node.get("box_columns") or []):
+                tag = "+box"
+            elif tag in ("pack", "weight") and (need := "F" if (tag == "pack" and smode == "box") else letter) not in _kinds_tag(c):
+                tag = f"{tag}:!{need}"  # (a PACK child of a box Pile is rendered as a flow widget)
+            else:
+                tag = ""
+        elif t in ("Frame", "Overlay", "GridFlow", "ListBox"):
+            tag = ""
         else:
             tag = "" if letter in _kinds_tag(c) else f"!{letter}"
         if c["t"] in T.CONTAINER_CLASSES and not T.children(c):
             tag += "(empty)"
         if tag:
-            parts.append(tag)
-    parts = sorted(set(flagged)) if flagged else sorted(set(parts))
-    return s + ("[" + ",".join(parts) + "]" if parts else "")
+            flagged.append(tag)
+    flagged = sorted(set(flagged))
+    return s + ("[" + ",".join(flagged) + "]" if flagged else "")
 
 
 def signature(env, recipe, f, sclass):
     node = T.node_at(recipe, f.path)
     kind = f.kind + (f"@in:{f.inner}" if f.inner else "")
-    via = "" if not f.path else "|nested"
-    return f"C01|{f.cls}|{f.smode}|{kind}|{shape_of(node, env.mode, f.smode)}|{sclass}{via}"
+    via = ""
+    if sclass == "after-history":
+        return f"C01|{f.cls}|{f.smode}|{kind}|*|after-history"
+    return f"C01|{f.cls}|{f.smode}|{kind}|{shape_of(node, env.mode, f.smode, f.kind.startswith("raise:"))}|{sclass}{via}"
 
 
 def prekey(env, recipe, f):
@@ -685,6 +680,7 @@ def run(ctx):
     seen_prekeys = Counter()
     max_per_prekey = ctx.pick(2, 3)
     box_subset = ctx.pick(10, 49)
+    max_trees = ctx.pick(110, 1200)  # op-count bound: reached before the time budget on an unloaded machine => same cases every run
 
     def sizes_for(smode):
         if smode != "box" or box_subset >= 49:
@@ -704,8 +700,18 @@ def run(ctx):
                         continue
                     r = T.gen_leaf(ctx.subrng("leaf", cls, mode, rep), None, mode, cls)
                     drive_tree(env, r, mode, lambda m: SIZES[m], seen_prekeys, max_per_prekey)
+        # 1b. every decoration / container class as the root, every mode (systematic class coverage)
+        for cls in T.DECORATION_CLASSES + T.CONTAINER_CLASSES:
+            for mode in T.ENCODINGS:
+                for rep in range(ctx.pick(3, 12)):
+                    i += 1
+                    if not ctx.mine(i):
+                        continue
+                    sub = ctx.subrng("rooted", cls, mode, rep)
+                    r = T.gen_rooted(sub, cls, mode, sub.randint(1, 2))
+                    drive_tree(env, r, mode, sizes_for, seen_prekeys, max_per_prekey)
         # 2. random trees
-        while ctx.more(1.0):
+        while ctx.more(1.0) and k < max_trees:
             mode = ("utf8", "wide", "narrow", "utf8")[k % 4]
             kind = rng.choice(T.KINDS)
             depth = rng.randint(1, maxdepth)
@@ -719,6 +725,9 @@ def run(ctx):
         urwid.util.set_encoding(old_enc)
         urwid.canvas.CanvasCache.clear()
     ctx.count("probes_for_shrinking", env.probes)
+    ctx.count("random_trees_generated", k)
+    if k < max_trees:
+        ctx.count("shards_stopped_by_time_budget")
     flush_m1(env)
     reach.flush(ctx)
 
